@@ -10,7 +10,10 @@ use sha1::Sha1;
 use std::collections::{BTreeMap, HashMap, VecDeque};
 use std::sync::atomic::{AtomicBool, AtomicU32, AtomicU64, AtomicUsize, Ordering};
 use std::sync::{Arc, Weak};
+#[cfg(not(rustrtc_verif))]
 use std::time::{Duration, Instant};
+#[cfg(rustrtc_verif)]
+use {std::time::Duration, tokio::time::Instant};
 use tokio::sync::{Notify, mpsc};
 use tracing::{debug, trace};
 
